@@ -1459,6 +1459,20 @@ Op* RegularExpression::compile(const Token* const token, Op* const next,
         break;
     case Token::T_RANGE:
     case Token::T_NRANGE:
+        {
+            // Build the lookup map (and the case-insensitive variant) now
+            // rather than on the first match: a compiled expression, e.g.
+            // a pattern facet in a cached grammar, may be matched from
+            // several threads at once.
+            RangeToken* rangeTok = (RangeToken*) token;
+            rangeTok->createMap();
+            if (isSet(fOptions, IGNORE_CASE))
+            {
+                RangeToken* ciTok = rangeTok->getCaseInsensitiveToken(fTokenFactory);
+                if (ciTok)
+                    ciTok->createMap();
+            }
+        }
         ret = fOpFactory.createRangeOp(token);
         ret->setNextOp(next);
         break;
